@@ -137,6 +137,8 @@ class Connected(object):
         out = self.s.send(rc.enc_forward_open(fo, large=large), wrap=False)
         if out['reply'] is None:
             raise rc.RefDecodeError('Forward Open got no CIP reply: %r' % (out.get('enip_status'),))
+        rc._need(out['reply']['service'] == ((0x5B if large else 0x54) | 0x80),
+                 'Forward Open reply service 0x%02X is not the request service with the reply bit' % out['reply']['service'])
         self.reply = rc.dec_forward_open_reply(out['reply'])
         self.conn_id = self.reply['O_T_connection_ID']
 
